@@ -45,7 +45,14 @@ class LTen:
         return len(self.shape.lead) + (1 if self.shape.tail is not None else 0)
 
     def ite(self, c, other):
-        return LTen(self.shape, lambda idx: z3.If(c, self.elem(idx), other.elem(idx)), fresh=self.fresh and other.fresh)
+        a, b = self.shape, other.shape
+        if len(a.lead) != len(b.lead) or (a.tail is None) != (b.tail is None):
+            raise Unsupported("if-then-else over tensors of different symbolic structure")
+        lead = [x if (isinstance(x, int) and isinstance(y, int) and x == y) else z3.If(c, lift(x), lift(y)) for x, y in zip(a.lead, b.lead)]
+        tail = a.tail if a.tail is None or a.tail.eq(b.tail) else z3.If(c, a.tail, b.tail)
+        r = LTen(V.Shape(lead, tail), lambda idx: z3.If(c, self.elem(idx), other.elem(idx)), fresh=self.fresh and other.fresh)
+        r.owner = self.owner and other.owner
+        return r
 
     def sym_getattr(self, interp, name):
         return lten_getattr(interp, self, name)
@@ -488,6 +495,8 @@ def delta_sum(cx, n, body_at):
                     sol = _solve_linear(x, y, r)
                     if sol is not None:
                         cands.append(sol)
+                    else:
+                        cands.append(y)  # guess: the equation pins r to the other side (verified below)
     for rho in cands:
         s = z3.Solver()
         s.set("timeout", 3000)
